@@ -54,4 +54,10 @@ CHECKS = {
              level="fault_enumeration",
              q={"checks": 40, "shards": 1, "timeout": 600},
              t={"checks": 300, "shards": 16, "timeout": 2400}),
+    "C22": P("pure", "TestC22",
+             "rapid generated stores with distinct per-label-set values x prefixes/hostname; multiset comparison of every format's records with an independent formatter (differential)",
+             "For each generated store the JSON, varz, graphite (HTTP and push), statsd and collectd outputs are captured (push formats record by record through the hook) and compared as multisets with records produced by independent formatters in the harness: each label set exactly once, with its own value and timestamp; JSON decoded generically and compared field by field.",
+             "Trusted: the harness formatters (written from the wire formats), encoding/json for decoding. Label values containing a format's separators are not checked against that format. Sampling.",
+             q={"checks": 2500, "shards": 1, "timeout": 300},
+             t={"checks": 20000, "shards": 16, "timeout": 1500}),
 }
